@@ -269,11 +269,30 @@ Theorem C17_decode_time_bins : forall units ep b, 0 < b -> Forall sortedZ units 
 Proof. exact count_rows_spec. Qed.
 Print Assumptions C17_decode_time_bins.
 
-(* pre-binned TsdFrame: exactly the rows lying in ep are decoded (decode_1d) *)
+(* pre-binned TsdFrame: exactly the rows lying in ep are decoded (decode_1d; decode_2d below) *)
 Theorem C17_decode_prebinned_rows : forall (E : Q -> Q) occ tc centres rows ep b,
   map fst (decode_binned E occ tc centres rows ep b) = filter (fun t => mem t ep) (map fst rows).
 Proof. exact decode_binned_times. Qed.
 Print Assumptions C17_decode_prebinned_rows.
+
+(* decode_2d on a pre-binned TsdFrame (repaired tree, count = newgroup): the posterior ARRAY has exactly one row per
+   decoded time bin, these are the rows lying in ep, and each decoded (x, y) is the pair of centres at
+   unravel_index(argmax of that row, (nx, ny)) over the row-major flattened cells *)
+Theorem C17_decode2d_prebinned_rows : forall (E : Q -> Q) occ tc cx cy rows ep b,
+  length (decode2d_post E occ tc rows ep b) = length (decode2d_decoded E occ tc cx cy rows ep b) /\
+  map fst (decode2d_decoded E occ tc cx cy rows ep b) = filter (fun t => mem t ep) (map fst rows).
+Proof. exact decode2d_rows_aligned. Qed.
+Print Assumptions C17_decode2d_prebinned_rows.
+
+Theorem C17_decode2d_decoded_cell : forall (E : Q -> Q) occ tc cx cy rows ep b,
+  Forall2 (fun p d => snd d = (nth (argmax p / length cy) cx 0%Q, nth (argmax p mod length cy) cy 0%Q))
+          (decode2d_post E occ tc rows ep b) (decode2d_decoded E occ tc cx cy rows ep b).
+Proof. exact decode2d_row_spec. Qed.
+Print Assumptions C17_decode2d_decoded_cell.
+
+Theorem C17_unravel : forall ny i j, (j < ny)%nat -> unravel ny (i * ny + j) = (i, j).
+Proof. exact unravel_spec. Qed.
+Print Assumptions C17_unravel.
 
 (* occupancy prior: the edges rebuilt from >= 2 equally spaced bin centres are the original edges,
    so the prior is the histogram of the feature over the tuning curve's own bins *)
